@@ -61,14 +61,14 @@ contract(CT + "terminal.__str__", props=["C10"], params=dict(self=TERM), result=
          requires=["cls_is(self, '" + CT + "terminal')"],
          ensures=[("text", "result == terminal_text(self)")])
 
-contract(CT + "terminal.tree_type", props=["C10", "C03"], params=dict(self=TERM), result=TERM,
+contract(CT + "terminal.tree_type", props=["C10", "C03"], params=dict(self=TERM), result=TERM, modifies=["alloc"],
          ensures=[("undeclared", "implies(field(self, '_tree_type') == None, result == self)"),
                   ("declared", "implies(field(self, '_tree_type') != None, is_new(result) and cls_is(result, '" + CT + "terminal') and "
                                "field(result, '_type') == field(self, '_tree_type') and field(result, '_p_depth') == field(self, '_p_depth') "
                                "and field(result, '_is_const') == field(self, '_is_const') and field(result, '_tree_type') == None)"),
                   ("self_untouched", "field(self, '_type') == old(field(self, '_type')) and field(self, '_p_depth') == old(field(self, '_p_depth'))")])
 
-contract(CT + "terminal.get_dereferenced_type", props=["C10"], params=dict(self=TERM), result=TERM,
+contract(CT + "terminal.get_dereferenced_type", props=["C10"], params=dict(self=TERM), result=TERM, modifies=["alloc"],
          raises={"RuntimeError": "field(self, '_p_depth') == 0"},
          ensures=[("copy", "is_new(result) and same_class(result, self) and field(result, '_type') == field(self, '_type') and "
                            "field(result, '_is_const') == field(self, '_is_const') and field(result, '_element_type') == field(self, '_element_type')"),
@@ -92,7 +92,7 @@ contract(CR + "base_type_member_access", props=["C10"], replay="base_type_member
          loops={1: dict(invariant=[("I.deref", "result == deref(field(v, '_expression'), _i)")])})
 
 contract(CR + "dereference_var", props=["C10"],
-         params=dict(v=CV), result=CV,
+         params=dict(v=CV), result=CV, modifies=["alloc"],
          requires=["field(v, '_cpp_type') != None"],
          ensures=[("not_pointer", "implies(field(field(v, '_cpp_type'), '_p_depth') <= 0, result == v)"),
                   ("pointer", "implies(field(field(v, '_cpp_type'), '_p_depth') > 0, is_new(result) and same_class(result, v) and "
@@ -107,6 +107,8 @@ contract(CR + "dereference_var", props=["C10"],
 # ---- type of a sequence: a collection of its element type (recursive through nested sequences) -------------------
 contract(CR + "cpp_sequence.cpp_type", props=["C10"],
          params=dict(self=RefOf(CR + "cpp_sequence")), result=TERM,
-         requires=[("cached_type_is_collection", "field(self, '_type') == None or isinst(field(self, '_type'), '" + CT + "collection')")],
+         requires=[("cached_type_is_collection", "field(self, '_type') == None or (isinst(field(self, '_type'), '" + CT + "collection') and "
+                                                 "field(field(self, '_type'), '_tree_type') == None)")],
          modifies=["_type@" + CR + "cpp_sequence", "alloc"], may_raise=["Exception"], strict=False,
-         ensures=[("collection", "result != None and live(result) and isinst(result, '" + CT + "collection')")])
+         ensures=[("collection", "result != None and live(result) and isinst(result, '" + CT + "collection')"),
+                  ("collections_have_no_tree_type", "field(result, '_tree_type') == None")])
